@@ -40,7 +40,11 @@ AnalyseOpen(ev) ==
                      LET i == (sg - 1) * (SC + 1) + k
                          d2 == (Dist2(q[i], q[i + 1]))                    \* = |b - a|^2 (the sub-segment is (b - a) in x8 coordinates)
                      IN [i |-> i, lo |-> ISqrtLo(64 * d2), hi |-> ISqrtHi(64 * d2),
-                         meets |-> \E j \in 1..Len(EA) : SegMeet(<<q[i], q[i + 1]>>, EA[j])]]]),
+                         \* "meets": some closed edge crosses the sub-segment OR comes within the clearance of it (the distance of two segments
+                         \* that do not meet is attained at an end point of one of them); inside the tolerance band the library may decide either way
+                         meets |-> \E j \in 1..Len(EA) : \/ SegMeet(<<q[i], q[i + 1]>>, EA[j])
+                                                          \/ ~(/\ FarSeg(q[i], EA[j][1], EA[j][2], CLR) /\ FarSeg(q[i + 1], EA[j][1], EA[j][2], CLR)
+                                                                /\ FarSeg(EA[j][1], q[i], q[i + 1], CLR) /\ FarSeg(EA[j][2], q[i], q[i + 1], CLR))]]]),
        \* number of crossings of open segments with closed edges = number of cuts
        ncuts |-> Cardinality({<<i, j>> \in (1..Len(AllOEdges(ScalePaths(O, SC)))) \X (1..Len(EA)) :
                                SegMeet(AllOEdges(ScalePaths(O, SC))[i], EA[j])}) ]
@@ -69,7 +73,7 @@ TOOut == /\ Ev.e = "OOut"
 
 (* kept-length bracket: a sub-segment [q_i, q_i+1] (1/8 of an open subject segment) that no closed edge   *)
 (* meets has constant windings, so it is entirely kept or entirely dropped by KeepOpen at q_i; a sub-segment *)
-(* some closed edge meets is uncertain: it counts for the upper bound only                                  *)
+(* some closed edge meets or approaches within the clearance is uncertain: it counts for the upper bound only *)
 TOExec ==
   /\ Ev.e = "OExec"
   /\ UNCHANGED <<cs, outs, oq, oouts>>
